@@ -316,7 +316,12 @@ def execute(scen):
                 elif kind == "Number":
                     fmt = [e for e in vspec["elements"].values() if e["name"] == n][0]["format"]
                     tol = V.sexa_resolution(fmt) / 2 if V.is_sexa(fmt) else 1e-9 * max(1.0, abs(num))
-                    if not _num_close(got, num, tol + 1e-12):
+                    if isinstance(num, int) and not isinstance(num, bool):
+                        # written as an integer beyond the floats' exact range: held digit for digit (int / float compare exactly)
+                        close = got == num
+                    else:
+                        close = _num_close(got, num, tol + 1e-12)
+                    if not close:
                         neg = isinstance(v, str) and v.startswith("-")
                         viol.append({"clause": "C06.value", "detail": f"number {n} (format {fmt}) holds {got!r}, text {v!r} denotes {num!r}; {ctx}",
                                      "facts": dict(f2, sexagesimal=V.is_sexa(fmt), negative=neg)})
